@@ -1294,26 +1294,29 @@ fn safemath_attached(t: &RTree) -> u8 {
 }
 fn r_safe_math(t: &RTree, pre: bool) -> Vec<Verdict> {
     let att = safemath_attached(t);
-    if att == 0 {
-        return Vec::new();
-    }
     let ver = file_version(t);
     let mut out = Vec::new();
     for (i, e) in exprs(t) {
         if let E::FunctionCall(_, callee, _) = e {
-            if let E::MemberAccess(_, _, m) = &**callee {
-                if ["add", "sub", "mul", "div"].contains(&m.name.as_str()) {
-                    let callee_idx = child_in_slot(t, i, "Call.callee").unwrap();
-                    let (must, listed) = match &ver {
-                        Version::Exact(a, b, c) => {
-                            let is_pre = (*a, *b, *c) < (0, 8, 0);
-                            (is_pre == pre && att == 2, is_pre == pre)
-                        }
-                        Version::Undefined => (false, true),
-                    };
-                    if listed {
-                        out.push(v(t, callee_idx, must, "SafeMath call site"));
+            if let E::MemberAccess(_, obj, m) = &**callee {
+                let canonical = ["add", "sub", "mul", "div"].contains(&m.name.as_str());
+                // other functions of the library (`mod`, `tryAdd`, ...) and explicit calls `SafeMath.add(a, b)` are not what
+                // the statement calls a call site: whether they are reported is open (gray), on the side of the version
+                let other_fn = ["mod", "tryAdd", "trySub", "tryMul", "tryDiv", "tryMod"].contains(&m.name.as_str());
+                let explicit = matches!(&**obj, E::Variable(id) if id.name == "SafeMath");
+                if !(canonical || other_fn) || (att == 0 && !explicit) {
+                    continue;
+                }
+                let callee_idx = child_in_slot(t, i, "Call.callee").unwrap();
+                let (must, listed) = match &ver {
+                    Version::Exact(a, b, c) => {
+                        let is_pre = (*a, *b, *c) < (0, 8, 0);
+                        (is_pre == pre && att == 2 && canonical && !explicit, is_pre == pre)
                     }
+                    Version::Undefined => (false, true),
+                };
+                if listed {
+                    out.push(v(t, callee_idx, must, "SafeMath call site"));
                 }
             }
         }
